@@ -535,7 +535,7 @@ func genCopy(t *rapid.T) Case {
 }
 
 var copyOps = []string{"copy", "copy", "copy", "put-seek", "put-noseek", "put-noseek", "put-badseek", "put-stream", "get-eof", "get-early",
-	"get-handoff", "head", "mget", "mhead", "mput", "tags", "referrers"}
+	"get-handoff", "head", "mget", "mhead", "mput", "tags", "referrers", "close-layout"}
 
 var copyFaultClasses = []string{"", "", "upload-put", "upload-put", "upload-post", "upload-patch", "blob-get", "blob-head", "manifest-get",
 	"manifest-put", "manifest-head", "tags-list", "referrers"}
